@@ -1,20 +1,18 @@
 /-
-C42 — source and destination templates substitute placeholders exactly.  Property theorems.
+C42 — source and destination templates substitute placeholders exactly.  Property theorems
+(model = the single-pass `strings.NewReplacer` the code uses since /repo 8657437).
 
-Reading guide.  A template is read as a list of items (`lit c` / `ph i`); its meaning is `renderAll`:
-every placeholder replaced by its value and nothing else touched — "no placeholder replaced inside an
-inserted value" is built into that definition.
-* `seq_exact`  : for every DELIMITED template (no stray `$`; every placeholder followed by the end or
-                 by a byte that occurs in no placeholder) and values without `$` (the value substituted
-                 LAST may be anything), the sequence of `ReplaceAll` calls the code makes yields
-                 exactly `renderAll`.                                   (the property, partial)
-* `sim_exact`  : so does the single simultaneous pass `sim` (the executable spec of the driver).
-* `resolveSource_partial`, `resolveDest_partial` : the two functions with their real placeholder
-                 lists (`DelimItems`: the shadowing condition of `GoodItems` is PROVED for the
-                 descending `$G` family from decimal arithmetic: `prefixOK_source/_dest`).
-* `Exact_full` (def) + `splice_witness_*` : without the side condition the statement is false for
-                 the sequence of calls (`$G$G2`, `$G1$G13`, `$$MTX_PATH`), decided.
-* `query_never_rescanned` : `$MTX_QUERY` is substituted last, so the client's query may contain anything.
+* `sim_tokens` (ALL templates, ALL values): the result is the concatenation, token by token, of a
+  tokenisation computed from the template and the placeholder texts alone — an inserted value is never
+  scanned, so no placeholder is ever replaced inside one.
+* A template is also read as a list of items (`lit c` / `ph i`) with meaning `renderAll` (every
+  placeholder replaced by its value, nothing else touched).  `sim_exact`: for every DELIMITED template
+  (no stray `$`; every placeholder followed by the end or by a byte that occurs in no placeholder) and
+  ANY values the pass yields exactly `renderAll`.
+* `resolveSource_delimited`, `resolveDest_delimited`: the two functions with their real placeholder
+  lists (`$G<n>` n-th group incl. multi-digit indices, `$MTX_QUERY`, `$MTX_PATH`); the condition "a
+  higher-priority placeholder is never a prefix of a lower-priority one" is proved for the descending
+  `$G` family from decimal arithmetic (`prefixOK_source/_dest`).
 -/
 import MtxVerif.Model.C42
 
@@ -91,17 +89,6 @@ theorem prefix_of_delim {p a X : Bytes} (h : p <+: a ++ X)
       · exact Or.inl rfl
       · exact Or.inr ⟨c, X', rfl, fun hm => hc (List.mem_cons_of_mem _ hm)⟩
 
-theorem firstMatch_single_none {old new s : Bytes} (h : ¬ old <+: s) : firstMatch [(old, new)] s = none := by
-  have : old.isPrefixOf s = false := by
-    cases hb : old.isPrefixOf s
-    · rfl
-    · exact absurd (List.isPrefixOf_iff_prefix.mp hb) h
-  simp [firstMatch, this]
-
-theorem firstMatch_single_some {old new s : Bytes} (h : old <+: s) :
-    firstMatch [(old, new)] s = some (old, new) := by
-  simp [firstMatch, List.isPrefixOf_iff_prefix.mpr h]
-
 /-! #### templates as item lists -/
 
 inductive Item where
@@ -123,12 +110,6 @@ def renderAll (P : Phs) : List Item → Bytes
   | [] => []
   | .lit c :: t => c :: renderAll P t
   | .ph i :: t => valAt P i ++ renderAll P t
-
-/-- the template after the first `n` `ReplaceAll` calls -/
-def render (P : Phs) (n : Nat) : List Item → Bytes
-  | [] => []
-  | .lit c :: t => c :: render P n t
-  | .ph i :: t => (if i < n then valAt P i else oldAt P i) ++ render P n t
 
 /-- a byte that occurs in no placeholder text -/
 def Delim (P : Phs) (c : UInt8) : Prop := ∀ p ∈ P, c ∉ p.1
@@ -192,100 +173,6 @@ theorem no_shadow {P : Phs} {i n : Nat} {X : Bytes} (hi : i < P.length) (hn : n 
   rcases hX with rfl | ⟨c, X', rfl, hc⟩
   · exact Or.inl rfl
   · exact Or.inr ⟨c, X', rfl, hc _ (getD_mem (by omega))⟩
-
-/-! #### one `ReplaceAll` call on a delimited template -/
-
-theorem shape_single {P : Phs} (hP : ShapeOK P) {n : Nat} (hn : n < P.length) :
-    ShapeOK [(oldAt P n, valAt P n)] := by
-  intro p hp
-  simp only [List.mem_singleton] at hp
-  subst hp
-  exact oldAt_shape hP hn
-
-/-- **Step.** The `n`-th call replaces exactly the occurrences of placeholder `n`. -/
-theorem step_exact {P : Phs} (hP : ShapeOK P) (hV : ∀ i, i + 1 < P.length → DOLLAR ∉ valAt P i)
-    {n : Nat} (hn : n < P.length) : ∀ t, GoodItems P t →
-    replaceAll (oldAt P n) (valAt P n) (render P n t) = render P (n + 1) t := by
-  have hS := shape_single hP hn
-  intro t
-  unfold replaceAll
-  induction t with
-  | nil => intro _; rfl
-  | cons x t ih =>
-    intro hg
-    cases x with
-    | lit c =>
-      obtain ⟨hc, hg⟩ := hg
-      simp only [render]
-      rw [simGo_lit hS hc, ih hg]
-    | ph i =>
-      obtain ⟨hi, hpre, hnext, hg⟩ := hg
-      simp only [render]
-      by_cases h1 : i < n
-      · have h2 : i < n + 1 := by omega
-        simp only [h1, h2, if_true]
-        rw [simGo_plain hS _ _ (hV i (by omega)), ih hg]
-      · by_cases h2 : i = n
-        · subst h2
-          have h3 : i < i + 1 := by omega
-          simp only [Nat.lt_irrefl, if_false, h3, if_true]
-          obtain ⟨body, hb, _⟩ := oldAt_shape hP hi
-          have hm : firstMatch [(oldAt P i, valAt P i)] (DOLLAR :: (body ++ render P i t)) =
-              some (oldAt P i, valAt P i) := by
-            apply firstMatch_single_some
-            rw [hb]; exact List.prefix_append _ _
-          have := simGo_match (P := [(oldAt P i, valAt P i)]) (p := (oldAt P i, valAt P i))
-            (rest := render P i t) hb hm
-          rw [this, ih hg]
-        · have h3 : ¬ i < n + 1 := by omega
-          simp only [h1, h3, if_false]
-          obtain ⟨body, hb, hbody⟩ := oldAt_shape hP hi
-          have hX := next_delim (P := P) (render P n) rfl (fun _ _ => rfl) hnext
-          have hno : ¬ oldAt P n <+: oldAt P i ++ render P n t :=
-            no_shadow hi (by omega) hpre hX
-          have hnone := firstMatch_single_none (new := valAt P n) hno
-          rw [hb, List.cons_append] at hnone ⊢
-          simp only [simGo, hnone]
-          rw [simGo_plain hS _ _ hbody, ih hg]
-          rfl
-
-theorem render_zero (P : Phs) : ∀ t, render P 0 t = flatten P t
-  | [] => rfl
-  | .lit c :: t => by simp only [render, flatten, render_zero P t]
-  | .ph i :: t => by simp only [render, flatten, Nat.not_lt_zero, if_false, render_zero P t]
-
-theorem render_all (P : Phs) : ∀ t, GoodItems P t → render P P.length t = renderAll P t
-  | [], _ => rfl
-  | .lit c :: t, h => by simp only [render, renderAll, render_all P t h.2]
-  | .ph i :: t, h => by simp only [render, renderAll, h.1, if_true, render_all P t h.2.2.2]
-
-theorem seq_from {P : Phs} (hP : ShapeOK P) (hV : ∀ i, i + 1 < P.length → DOLLAR ∉ valAt P i)
-    (t : List Item) (hg : GoodItems P t) : ∀ (m n : Nat), n + m = P.length →
-    (P.drop n).foldl (fun acc p => replaceAll p.1 p.2 acc) (render P n t) = render P P.length t := by
-  intro m
-  induction m with
-  | zero =>
-    intro n hn
-    have : n = P.length := by omega
-    subst this
-    simp
-  | succ m ih =>
-    intro n hn
-    have hlt : n < P.length := by omega
-    rw [List.drop_eq_getElem_cons hlt, List.foldl_cons]
-    have e1 : P[n].1 = oldAt P n := by
-      simp only [oldAt, List.getD_eq_getElem?_getD, List.getElem?_eq_getElem hlt, Option.getD_some]
-    have e2 : P[n].2 = valAt P n := by
-      simp only [valAt, List.getD_eq_getElem?_getD, List.getElem?_eq_getElem hlt, Option.getD_some]
-    rw [e1, e2, step_exact hP hV hlt t hg]
-    exact ih (n + 1) (by omega)
-
-/-- **The sequence of `ReplaceAll` calls is exact on delimited templates.** -/
-theorem seq_exact {P : Phs} (hP : ShapeOK P) (hV : ∀ i, i + 1 < P.length → DOLLAR ∉ valAt P i)
-    (t : List Item) (hg : GoodItems P t) : seq P (flatten P t) = renderAll P t := by
-  have := seq_from hP hV t hg P.length 0 (by omega)
-  rw [List.drop_zero, render_zero, render_all P t hg] at this
-  exact this
 
 /-! #### the simultaneous pass on a delimited template -/
 
@@ -396,56 +283,6 @@ theorem shape_dest (pn : Bytes) (ms : List Bytes) : ShapeOK (destPhs pn ms) := b
     exact ⟨[77, 84, 88, 95, 80, 65, 84, 72], rfl, by decide⟩
   · obtain ⟨⟨i, hi⟩, _⟩ := groupPhs_mem h
     rw [hi]; exact phG_shape i
-
-theorem resolveSource_eq_seq (s : Bytes) (ms : List Bytes) (q : Bytes) :
-    resolveSource s ms q = seq (sourcePhs ms q) s := by
-  simp [resolveSource, seq, sourcePhs, List.foldl_append]
-
-theorem resolveDest_eq_seq (s pn : Bytes) (ms : List Bytes) :
-    resolveDest s pn ms = seq (destPhs pn ms) s := by
-  simp [resolveDest, seq, destPhs]
-
-theorem valAt_mem {P : Phs} {i : Nat} (h : i < P.length) : ∃ p ∈ P, valAt P i = p.2 :=
-  ⟨_, getD_mem h, rfl⟩
-
-/-- **resolveSource is exact** on delimited templates when the capture groups contain no `$`
-(always true: path names are `[-0-9A-Za-z_./]+`); the client's query may contain anything. -/
-theorem resolveSource_exact (ms : List Bytes) (q : Bytes) (t : List Item)
-    (hv : ∀ v ∈ ms, DOLLAR ∉ v) (hg : GoodItems (sourcePhs ms q) t) :
-    resolveSource (flatten (sourcePhs ms q) t) ms q = renderAll (sourcePhs ms q) t ∧
-    sim (sourcePhs ms q) (flatten (sourcePhs ms q) t) = renderAll (sourcePhs ms q) t := by
-  refine ⟨?_, sim_exact (shape_source ms q) t hg⟩
-  rw [resolveSource_eq_seq]
-  apply seq_exact (shape_source ms q) _ t hg
-  intro i hi
-  have hlen : (sourcePhs ms q).length = (groupPhs ms).length + 1 := by simp [sourcePhs]
-  have hi' : i < (groupPhs ms).length := by omega
-  have e : valAt (sourcePhs ms q) i = valAt (groupPhs ms) i := by
-    simp only [valAt, sourcePhs, List.getD_eq_getElem?_getD, List.getElem?_append_left hi']
-  rw [e]
-  obtain ⟨p, hp, hpv⟩ := valAt_mem hi'
-  rw [hpv]
-  rcases (groupPhs_mem hp).2 with h | h
-  · exact hv _ h
-  · rw [h]; exact fun h => nomatch h
-
-/-- **resolveDest is exact** on delimited templates when path name and groups contain no `$`. -/
-theorem resolveDest_exact (pn : Bytes) (ms : List Bytes) (t : List Item)
-    (hp : DOLLAR ∉ pn) (hv : ∀ v ∈ ms, DOLLAR ∉ v) (hg : GoodItems (destPhs pn ms) t) :
-    resolveDest (flatten (destPhs pn ms) t) pn ms = renderAll (destPhs pn ms) t ∧
-    sim (destPhs pn ms) (flatten (destPhs pn ms) t) = renderAll (destPhs pn ms) t := by
-  refine ⟨?_, sim_exact (shape_dest pn ms) t hg⟩
-  rw [resolveDest_eq_seq]
-  apply seq_exact (shape_dest pn ms) _ t hg
-  intro i hi
-  have hi' : i < (destPhs pn ms).length := by omega
-  obtain ⟨p, hpm, hpv⟩ := valAt_mem hi'
-  rw [hpv]
-  rcases List.mem_cons.mp hpm with h | h
-  · subst h; exact hp
-  · rcases (groupPhs_mem h).2 with h | h
-    · exact hv _ h
-    · rw [h]; exact fun h => nomatch h
 
 /-! #### descending `$G` indices never shadow each other -/
 
@@ -578,50 +415,79 @@ theorem good_of_delim {P : Phs} (hpre : ∀ i n, n < i → i < P.length → ¬ o
   | .lit _ :: t, h => ⟨h.1, good_of_delim hpre t h.2⟩
   | .ph i :: t, h => ⟨h.1, fun n hn => hpre i n hn h.1, h.2.1, good_of_delim hpre t h.2.2⟩
 
-/-- **C42 for static sources** (the proved part of the property): for every delimited template, all
-capture groups without `$` and ANY query, `resolveSource` returns the template with each `$G<n>`
-replaced by group n and `$MTX_QUERY` by the query, and nothing else changed. -/
-theorem resolveSource_partial (ms : List Bytes) (q : Bytes) (t : List Item)
-    (hv : ∀ v ∈ ms, DOLLAR ∉ v) (hd : DelimItems (sourcePhs ms q) t) :
+/-- **C42 for static sources**: for every delimited template, all groups and every query (any bytes),
+`resolveSource` returns the template with each `$G<n>` replaced by group n and `$MTX_QUERY` by the
+query, and nothing else changed. -/
+theorem resolveSource_delimited (ms : List Bytes) (q : Bytes) (t : List Item)
+    (hd : DelimItems (sourcePhs ms q) t) :
     resolveSource (flatten (sourcePhs ms q) t) ms q = renderAll (sourcePhs ms q) t :=
-  (resolveSource_exact ms q t hv (good_of_delim (prefixOK_source ms q) t hd)).1
+  sim_exact (shape_source ms q) t (good_of_delim (prefixOK_source ms q) t hd)
 
-/-- **C42 for forward destinations** (the proved part). -/
-theorem resolveDest_partial (pn : Bytes) (ms : List Bytes) (t : List Item)
-    (hp : DOLLAR ∉ pn) (hv : ∀ v ∈ ms, DOLLAR ∉ v) (hd : DelimItems (destPhs pn ms) t) :
+/-- **C42 for forward destinations**. -/
+theorem resolveDest_delimited (pn : Bytes) (ms : List Bytes) (t : List Item)
+    (hd : DelimItems (destPhs pn ms) t) :
     resolveDest (flatten (destPhs pn ms) t) pn ms = renderAll (destPhs pn ms) t :=
-  (resolveDest_exact pn ms t hp hv (good_of_delim (prefixOK_dest pn ms) t hd)).1
+  sim_exact (shape_dest pn ms) t (good_of_delim (prefixOK_dest pn ms) t hd)
 
-/-! #### the full statement, and why it is only partial -/
+/-! #### single pass, for every template: inserted values are never scanned -/
 
-/-- C42 for sources at full strength: for ALL templates, groups and queries the code's result is the
-single simultaneous substitution. -/
-def SourceExact_full : Prop :=
-  ∀ (tmpl : Bytes) (ms : List Bytes) (q : Bytes), resolveSource tmpl ms q = sim (sourcePhs ms q) tmpl
+inductive Tok where
+  | lit (c : UInt8)     -- byte copied
+  | ph (i : Nat)        -- i-th placeholder of the list matched here
+deriving Repr, DecidableEq
 
-def DestExact_full : Prop :=
-  ∀ (tmpl pn : Bytes) (ms : List Bytes), resolveDest tmpl pn ms = sim (destPhs pn ms) tmpl
+/-- index of the first placeholder text that is a prefix of `s` -/
+def firstIdx : List Bytes → Bytes → Option Nat
+  | [], _ => none
+  | o :: os, s => if o.isPrefixOf s then some 0 else (firstIdx os s).map (· + 1)
 
-/-- outside the decidable class the two agree (by definition of the class) … -/
-theorem outside_class (P : Phs) (s : Bytes) (h : spliceTemplate P s = false) : seq P s = sim P s := by
-  simpa [spliceTemplate] using h
+/-- tokenisation of a template: depends on the placeholder TEXTS and the template only -/
+def tokGo (olds : List Bytes) : Nat → Bytes → List Tok
+  | _, [] => []
+  | k + 1, _ :: r => tokGo olds k r
+  | 0, c :: r =>
+    match firstIdx olds (c :: r) with
+    | some i => Tok.ph i :: tokGo olds ((olds.getD i []).length - 1) r
+    | none => Tok.lit c :: tokGo olds 0 r
 
-/-- … and every delimited template with `$`-free values is outside the class. -/
-theorem delimited_not_splice {P : Phs} (hP : ShapeOK P) (hV : ∀ i, i + 1 < P.length → DOLLAR ∉ valAt P i)
-    (t : List Item) (hg : GoodItems P t) : spliceTemplate P (flatten P t) = false := by
-  simp [spliceTemplate, seq_exact hP hV t hg, sim_exact hP t hg]
+def renderTok (P : Phs) : Tok → Bytes
+  | .lit c => [c]
+  | .ph i => valAt P i
 
-/-- `$G$G2` with groups ("a", "1"): the calls give "a", one pass gives "$G1". -/
-theorem source_splice_witness : ¬ SourceExact_full := by
-  intro h
-  have := h [36, 71, 36, 71, 50] [[97, 49], [97], [49]] []
-  revert this; decide
+theorem firstMatch_firstIdx : ∀ (P : Phs) (s : Bytes),
+    firstMatch P s = (firstIdx (P.map (·.1)) s).map fun i => P.getD i ([], []) := by
+  intro P
+  induction P with
+  | nil => intro s; rfl
+  | cons p ps ih =>
+    intro s
+    simp only [firstMatch, List.map_cons, firstIdx]
+    split
+    · rfl
+    · rw [ih s]
+      cases firstIdx (ps.map (·.1)) s <;> simp
 
-/-- `$$MTX_PATH` with path name "G1" and group 1 = "x": the calls give "x", one pass gives "$G1". -/
-theorem dest_splice_witness : ¬ DestExact_full := by
-  intro h
-  have := h [36, 36, 77, 84, 88, 95, 80, 65, 84, 72] [71, 49] [[71, 49], [120]]
-  revert this; decide
+/-- **No placeholder is replaced inside an inserted value** — for all templates, placeholder lists and
+values: the output is the token-wise rendering of a tokenisation that does not depend on the values. -/
+theorem sim_tokens (P : Phs) : ∀ (s : Bytes) (k : Nat),
+    simGo P k s = (tokGo (P.map (·.1)) k s).flatMap (renderTok P) := by
+  intro s
+  induction s with
+  | nil => intro k; simp [simGo, tokGo]
+  | cons c r ih =>
+    intro k
+    cases k with
+    | succ k => simp only [simGo, tokGo]; exact ih k
+    | zero =>
+      simp only [simGo, tokGo, firstMatch_firstIdx]
+      cases h : firstIdx (P.map (·.1)) (c :: r) with
+      | none => simp only [Option.map_none, List.flatMap_cons, ← ih]; rfl
+      | some i =>
+        simp only [Option.map_some, List.flatMap_cons, ← ih, renderTok, valAt]
+        have e : (List.getD (List.map (fun x => x.1) P) i []).length = (P.getD i ([], [])).1.length := by
+          simp only [List.getD_eq_getElem?_getD, List.getElem?_map]
+          cases P[i]? <;> rfl
+        rw [e]
 
 /-! #### samples (tests, not theorems) -/
 
@@ -639,8 +505,11 @@ example : resolveSource [97, 36,71,49, 58, 36,71,50, 63, 36,77,84,88,95,81,85,69
 example : phG 12 = [36, 71, 49, 50] := by decide
 example : sim (sourcePhs ([[102]] ++ List.replicate 12 [103]) []) [36, 71, 49, 50] = [103] := by decide
 example : sim (sourcePhs ([[102]] ++ List.replicate 5 [103]) []) [36, 71, 49, 50] = [103, 50] := by decide
--- the class of the finding
-example : spliceTemplate (sourcePhs [[97, 49], [97], [49]] []) [36, 71, 36, 71, 50] = true := by decide
-example : spliceTemplate (sourcePhs [[97, 49], [97], [49]] []) [36, 71, 49, 47, 36, 71, 50] = false := by decide
+-- regressions of the pre-8657437 defect (sequence of ReplaceAll calls): `$G$G2` with groups (a, 1) stays
+-- `$G1`; `$$MTX_PATH` with path "G1" stays `$G1`
+example : resolveSource [36, 71, 36, 71, 50] [[97, 49], [97], [49]] [] = [36, 71, 49] := by decide
+example : resolveDest [36, 36, 77, 84, 88, 95, 80, 65, 84, 72] [71, 49] [[71, 49], [120]] = [36, 71, 49] := by decide
+-- a value that looks like a placeholder is inserted verbatim, wherever it comes from
+example : resolveSource [36, 71, 50, 47, 36, 71, 49] [[102], [120], [36, 71, 49]] [] = [36, 71, 49, 47, 120] := by decide
 
 end MtxVerif.C42
